@@ -10,7 +10,7 @@ starts).  A failure seen only under `lowent` is recorded as an observation
 import math
 import os
 
-from sim.digest import digest, canon
+from sim.digest import digest, canon, excname
 from sim.simrandom import SimRandom
 from engines import designs, sem
 
@@ -85,6 +85,14 @@ def gen_case(r, index, tier):
         mode = r.weighted([("mt", 7), ("lowent", 3)])
         trials.append({"seed": r.below(1 << 31), "mode": mode, "bits": r.randint(0, 3), "alt": bool(alt) and r.chance(0.4),
                        "verbose": r.chance(0.25)})
+    # a flow that places the same netlist again and again while the area estimates of its soft blocks are being revised
+    # (preliminary estimates are smaller): every layout of the sequence is judged
+    softs = [m["name"] for m in nl["modules"] if m["kind"] == "soft" and not m.get("boxes")]
+    if softs and r.chance(0.2):
+        for _ in range(r.randint(4, 8)):
+            trials.append({"seed": r.below(1 << 31), "mode": "mt", "bits": 0, "alt": False, "verbose": False})
+        for t in trials[:-1]:
+            t["areas"] = {n: r.choice([0.25, 0.5, 0.5, 0.75]) for n in softs if r.chance(0.7)}
     return {"engine": "c14", "die": die, "net": nl, "nfloorplans": ntr, "trials": trials, "alt_die": alt}
 
 
@@ -202,7 +210,13 @@ def run_case(case):
         configured[mode] = configured.get(mode, 0) + 1
         rnd = SimRandom(t["seed"], mode, t.get("bits", 2))
         SA.random = rnd
-        net = SP.Spectral(tree)
+        tree_t = tree
+        if t.get("areas"):
+            tree_t = dict(tree, Modules={n: (dict(info, area=info["area"] * t["areas"][n])
+                                             if n in t["areas"] and isinstance(info.get("area"), float) else info)
+                                         for n, info in tree["Modules"].items()})
+            probe("layout_with_revised_area_estimates")
+        net = SP.Spectral(tree_t)
         before, nets_before = _snapshot(net)
         # the nets of the *input document* are the reference (constructing the Spectral object must not change them either)
         nets_before = [[[x for x in e if isinstance(x, str)], float(e[-1]) if not isinstance(e[-1], str) else 1.0]
@@ -213,17 +227,17 @@ def run_case(case):
         try:
             net.spectral_layout(G.Shape(W, H), nfp, bool(t.get("verbose")))
         except (AssertionError, ZeroDivisionError, ValueError, OverflowError) as e:
-            entry["out"] = "raised " + type(e).__name__
+            entry["out"] = "raised " + excname(e)
             hist.append(entry)
             sig.append((t["seed"], mode, "raised"))
             if mode == "mt":
                 viol.append({"property": "C14", "clause": "spectral placement does not position the modules (raised)",
-                             "key": dict(key, exc=type(e).__name__, net_weight_spread=spread,
+                             "key": dict(key, exc=excname(e), net_weight_spread=spread,
                                          die_size="<0.05" if max(W, H) < 0.05 else ">=0.05"),
                              "detail": {"seed": t["seed"], "exc": repr(e)[:200],
                                                                                "nfloorplans": nfp}})
             else:
-                probe("unrealised_degenerate_start_" + type(e).__name__)
+                probe("unrealised_degenerate_start_" + excname(e))
                 fired["lowent_degenerate"] = fired.get("lowent_degenerate", 0) + 1
             continue
         fired[mode] = fired.get(mode, 0) + 1
